@@ -83,9 +83,75 @@ fn check_one(o: &mut CaseOut, tree: &PredecessorTree, pred: &[Option<usize>], s:
     }
 }
 
+/// The same predecessor vector reached in three ways: From<Vec>, new(n) then
+/// IndexMut, or a shorter tree whose public `pred` field is then grown.
+fn build_tree(pred: &[Option<usize>], how: usize) -> PredecessorTree {
+    let n = pred.len();
+    match how % 3 {
+        0 => PredecessorTree::from(pred.to_vec()),
+        1 => {
+            let mut t = PredecessorTree::new(n);
+            for (v, &p) in pred.iter().enumerate() {
+                t[v] = p;
+            }
+            t
+        }
+        _ => {
+            let k = (how / 3) % n.max(1);
+            let mut t = PredecessorTree::from(pred[..k.max(1).min(n)].to_vec());
+            t.pred.truncate(k.min(n));
+            t.pred.extend_from_slice(&pred[k.min(n)..]);
+            t
+        }
+    }
+}
+
+/// A predicate that itself searches another tree (re-entrant use). Runs on a
+/// helper thread: if it has not finished after 30 s of wall-clock the search
+/// is deadlocked (a tiny vector takes microseconds).
+fn reentrant(o: &mut CaseOut, pred: &[Option<usize>]) {
+    use std::sync::mpsc::channel;
+    let n = pred.len();
+    let p1 = pred.to_vec();
+    let (tx, rx) = channel();
+    let h = std::thread::spawn(move || {
+        let a = PredecessorTree::from(p1.clone());
+        let b = PredecessorTree::from(p1.clone());
+        let mut out = Vec::new();
+        for s in 0..n.min(3) {
+            let t = n - 1;
+            let got = a.search_by(s, |&v, _| b.search(v, t).is_some());
+            out.push((s, got));
+        }
+        let _ = tx.send(out);
+    });
+    match rx.recv_timeout(std::time::Duration::from_secs(30)) {
+        Ok(out) => {
+            let _ = h.join();
+            for (s, got) in out {
+                let t = n - 1;
+                let want = reference(pred, s, &|v, _| reference(pred, v, &|x, _| x == t).is_some());
+                o.check(got == want, "search_by(re-entrant predicate)", || format!("pred {pred:?} s {s}: got {got:?} want {want:?}"));
+            }
+        }
+        Err(_) => {
+            o.check(false, "search_by-does-not-terminate(re-entrant predicate)", || {
+                format!("a predicate that searches another tree did not return within 30 s: pred {pred:?}")
+            });
+            // the helper thread stays blocked; nothing after this case can be trusted
+            crate::ctx::request_stop();
+        }
+    }
+}
+
 fn check_vector(o: &mut CaseOut, pred: &[Option<usize>], starts: &[usize], targets: &[usize]) {
     let n = pred.len();
-    let tree = PredecessorTree::from(pred.to_vec());
+    let how = pred.iter().map(|p| p.map_or(1, |v| v + 2)).sum::<usize>();
+    let tree = build_tree(pred, how);
+    o.check(tree.pred == pred, "tree-construction", || format!("{:?} vs {pred:?}", tree.pred));
+    if how % 64 == 3 {
+        reentrant(o, pred);
+    }
     for &s in starts {
         for &t in targets {
             if !check_one(o, &tree, pred, s, &format!("v == {t}"), &|v, _| v == t) {
